@@ -256,7 +256,7 @@ func genHist(r *lib.Rng, id int64, tier string, withSaves bool) Case {
 				}
 				if r.Chance(1, 4) {
 					// a stretch of history made by dastard's own SourceControl just before the save
-					c.Ops = append(c.Ops, Op{Op: "SRC", N: int64(r.Intn(3) / 2)})
+					c.Ops = append(c.Ops, Op{Op: "SRC", N: int64(r.Intn(4))})
 				}
 				if r.Chance(1, 3) {
 					c.Ops = append(c.Ops, Op{Op: "SAQ"}) // waits for the save, too
@@ -386,7 +386,7 @@ func corpus() []Case {
 			Ops: []Op{{Op: "U", Tag: "STATELABEL", Val: raw("new")}, {Op: "S"}, {Op: "U", Tag: "MIX", Val: raw(3)}, {Op: "S"}, {Op: "R"}}},
 		// a source started, writing started under a base path, the source stopped while writing; the delayed
 		// save; a second dastard must come up with that base path (then the same with WriteControl Stop first)
-		{Mode: "hist", Ops: []Op{{Op: "SRC"}, {Op: "W"}, {Op: "R"}, {Op: "SA"}, {Op: "SRC", N: 1}, {Op: "W"}, {Op: "R"}, {Op: "SA"}}},
+		{Mode: "hist", Ops: []Op{{Op: "SRC"}, {Op: "W"}, {Op: "R"}, {Op: "SA"}, {Op: "SRC", N: 3}, {Op: "W"}, {Op: "R"}, {Op: "SA"}}},
 		// SendAllStatus through the real RPC method while the updater is busy saving and its queue is full
 		{Mode: "hist", Ops: append(append(all(), Op{Op: "U", Tag: "ALIVE", Val: raw(7)}, Op{Op: "SAQ"}),
 			Op{Op: "U", Tag: "STATELABEL", Val: raw("after")}, Op{Op: "SAQ"}, Op{Op: "SA"})},
